@@ -1008,6 +1008,7 @@ func main() {
 		extra("membership", o.Pick(2, 6), func(idx int, local *stats) string { return scenarioMembership(o, idx, local) })
 		extra("votes", o.Pick(3, 9), func(idx int, local *stats) string { return scenarioVotes(o, idx, local) })
 		extra("storm", o.Pick(1, 3), func(idx int, local *stats) string { return scenarioStorm(o, idx, local, "c07") })
+		extra("deposed-tail", o.Pick(1, 4), func(idx int, local *stats) string { return scenarioDeposedTail(o, idx, local, "c07") })
 		wg.Add(1)
 		go func() {
 			defer wg.Done()
@@ -1088,6 +1089,7 @@ func main() {
 		}
 		extra("slowdisk", o.Pick(2, 6), func(idx int, local *stats) string { return scenarioSlowDisk(o, idx, local) })
 		extra("storm", o.Pick(1, 3), func(idx int, local *stats) string { return scenarioStorm(o, idx, local, "c08") })
+		extra("deposed-tail", o.Pick(2, 6), func(idx int, local *stats) string { return scenarioDeposedTail(o, idx, local, "c08") })
 		for i, cs := range cases {
 			if *fOnly != "" && !strings.Contains(cs.regime+":"+cs.seam, *fOnly) {
 				continue
